@@ -13,6 +13,7 @@ var units = map[string]common.UnitFunc{
 	"c05orch":   unitC05orch,
 	"c09":       unitC09,
 	"c11crypto": unitC11crypto,
+	"c11orch":   unitC11orch,
 	"c08":       unitC08,
 	"c18deal":   unitC18deal,
 	"c18dkg":    unitC18dkg,
